@@ -5,9 +5,12 @@ import json, os, re, subprocess, sys, time, shutil, hashlib, random
 
 ROOT = os.path.dirname(os.path.dirname(os.path.abspath(__file__)))
 SPEC = os.path.join(ROOT, "spec")
-HARNESS = os.path.join(ROOT, "harness")
+# VERIF_HARNESS_DIR / VERIF_EVID_DIR: used only by lib/mutrun.sh to run the checks against a scratch copy
+# of the harness whose path dependencies point at a mutated worktree of facebook/winterfell (so that seeded
+# changes can be tried without touching /repo); the registered commands never set them.
+HARNESS = os.environ.get("VERIF_HARNESS_DIR") or os.path.join(ROOT, "harness")
 WORK = os.path.join(ROOT, "work")
-EVID = os.path.join(ROOT, "evidence")
+EVID = os.environ.get("VERIF_EVID_DIR") or os.path.join(ROOT, "evidence")
 REPLAY = os.path.join(EVID, "replay")
 TLAJAR = "/opt/veriftools/tla/tla2tools.jar"
 COMMUNITY = "/opt/veriftools/tla/CommunityModules-deps.jar"
@@ -68,7 +71,10 @@ def build_harness(pkg, variant="serial", profile="release"):
     dst_dir = os.path.join(HARNESS, "bin")
     os.makedirs(dst_dir, exist_ok=True)
     dst = os.path.join(dst_dir, "wf-%s-%s-%s" % (pkg, variant, profile))
-    shutil.copy2(src, dst)
+    # copy then rename: replacing the file atomically works even while another check runs the old copy
+    tmp = "%s.%d.tmp" % (dst, os.getpid())
+    shutil.copy2(src, tmp)
+    os.replace(tmp, dst)
     log("[build] %s %s/%s in %.1fs" % (pkg, variant, profile, time.time() - t0))
     _built[key] = dst
     return dst
@@ -199,6 +205,9 @@ def tlc(module, cfg=None, *, cwd=None, workers=1, simulate=None, depth=None, see
         if not any(k in low for k in verdict_markers):
             i = out.find("Error:")
             head = out[i:i + 1500] if i >= 0 else ""
+            j = out.find("*** Errors")
+            if j >= 0:
+                head += "\n" + out[j:j + 800]
             raise ToolError("TLC failed on %s:\n%s\n...\n%s" % (module, head, out[-1500:]))
         r.ok = False
     else:
